@@ -1453,7 +1453,8 @@ func attackPayloads(r *rand.Rand) [][]byte {
 		[]byte("*2147483648\r\n$1\r\nx\r\n"), []byte("*1\r\n$536870913\r\n"), []byte("*1\r\n$9223372036854775807\r\n"),
 		[]byte("*1\r\n$-9223372036854775808\r\n"), []byte("*abc\r\n"), []byte("*1\r\n$abc\r\n"), []byte("*1\r\nGET\r\n"),
 		[]byte("$3\r\nGET\r\n"), []byte("\r\n"), []byte("\n"), []byte("\r"), []byte(" "), []byte("\x00"), []byte("'"), []byte("\""),
-		[]byte("\"unterminated\r\n"), []byte("'a\\'\r\n"), []byte("\\"), []byte("GET\r\n"), []byte("SET k\r\n"), []byte("set \"a b\" 'c d'\r\n"),
+		[]byte("\"unterminated\r\n"), []byte("'a\\'\r\n"),
+		[]byte("RPUSH biglist first \"\" tail\r\n"), []byte("\"\" a\r\n"), []byte("'' a\r\n"), []byte("SET k \"\"\r\n"), []byte("\"\"\r\n"), []byte("a \"\" \r\n"), []byte("\"\" \"\"\r\n"), []byte("x \"\\\"\" y\r\n"), []byte("\\"), []byte("GET\r\n"), []byte("SET k\r\n"), []byte("set \"a b\" 'c d'\r\n"),
 		[]byte("*3\r\n$3\r\nSET\r\n$1\r\nk\r\n"), // truncated
 		[]byte("*1\r\n$4\r\nPING"), []byte("*1\r\n$4\r\nPINGxx"), []byte("*1\r\n$0\r\n\r\n"),
 		bytesRepeat("*1\r\n$4\r\nPING\r\n", 2000), bytesRepeat("\r\n", 5000), bytesRepeat("a", 100000), bytesRepeat("* ", 3000),
@@ -1472,6 +1473,22 @@ func attackPayloads(r *rand.Rand) [][]byte {
 		{"PEXPIREAT", "a", "#"}, {"EXPIREAT", "", "#"}, {"EXPIREAT", "a", "9223372036854775"}, {"SET", "a", "v", "EXAT", "9223372036854775"},
 		{"ZINCRBY", "zk", "#", "a"}, {"ZADD", "zk", "#", "m"}, {"BLPOP", "nokey", "#"}, {"GEORADIUS", "gk", "1", "1", "#", "km"}, {"ZUNIONSTORE", "d", "#", "zk"}, {"ZINTERSTORE", "d", "#", "zk"},
 		{"HRANDFIELD", "hk", "#"}, {"LPOS", "ak", "a", "COUNT", "#"}, {"COPY", "k", "#"}, {"SELECT", "#"},
+	}
+	// the GEO commands take floats: negative, zero, tiny, enormous and non-numeric radii, coordinates off the map
+	weird := []string{"-1", "-0.5", "0", "1e-320", "1e308", "1e400", "inf", "-inf", "nan", "-1e308", "5000000000", "abc", ""}
+	for _, tpl := range [][]string{{"GEORADIUS", "gk", "13", "38", "#", "km"}, {"GEORADIUS", "gk", "13", "38", "#", "m", "WITHDIST", "COUNT", "1"}, {"GEORADIUS", "gk", "#", "#", "100", "km"},
+		{"GEORADIUSBYMEMBER", "gk", "gm", "#", "km"}, {"GEORADIUSBYMEMBER", "gk", "gm", "#", "m", "WITHDIST", "WITHCOORD", "COUNT", "2"}, {"GEORADIUSBYMEMBER", "gk", "nobody", "#", "km"},
+		{"GEOADD", "gk2", "#", "#", "m"}, {"GEOADD", "gk2", "#", "0", "m"}, {"GEODIST", "gk", "gm", "gn", "#"}, {"GEORADIUS", "gk", "13", "38", "100", "km", "COUNT", "#"}} {
+		for _, h := range weird {
+			args := make([][]byte, len(tpl))
+			for i, a := range tpl {
+				if a == "#" {
+					a = h
+				}
+				args[i] = []byte(a)
+			}
+			p = append(p, encodeCommand(args))
+		}
 	}
 	for _, tpl := range sized {
 		for _, h := range huge {
@@ -1602,6 +1619,7 @@ func scHostile(n *nodis.Nodis, r *rand.Rand, rounds int) string {
 	canary.do("SADD", "sk", "a", "b", "c")
 	canary.do("ZADD", "zk", "1", "a", "2", "b")
 	canary.do("HSET", "hk", "f", "1", "g", "x")
+	canary.do("GEOADD", "gk", "13.361389", "38.115556", "gm", "15.087269", "37.502669", "gn", "0.0001", "0.0001", "go")
 	check := func(i int, what string) string {
 		t0 := time.Now()
 		v := fmt.Sprintf("v%d", i)
